@@ -299,6 +299,14 @@ fn line() -> BoxedStrategy<Line> {
         "x();\u{c}//# sourceMappingURL=after-ff.map",
         "\u{a0}//# sourceMappingURL=after-nbsp.map",
         "//＃ sourceMappingURL=fullwidth-hash.map",
+        // comment lines of 21+ bytes with a multi-byte character at / around byte 21
+        "//# sourceURL=pages/ñandú.js",
+        "//# sourceMappingURL→x.map",
+        "//@ sourceMappingUR→=x.map",
+        "//# sourceMappingURé=x",
+        "//@ author: José Ibáñez, 2020",
+        "//# 01234567890123456😀.map",
+        "//# 0123456789012345漢字.map",
     ])
     .prop_map(|s| Line::LookAlike(s.to_string()));
     let comment = (any::<bool>(), pad(), url(), pad()).prop_map(|(legacy, pad_l, url, pad_r)| Line::Comment { legacy, pad_l, url, pad_r });
